@@ -34,9 +34,23 @@ def pubConn : Out → Option Nat
 theorem shapeQos_zero (caps : Caps) (sub : Sub) : shapeQos caps sub 0 = 0 := by
   simp [shapeQos]
 
-/-- `publishToClientCore` for a QoS 0 message: the object is rewritten (alias table only) and, if it is open, the
+/-- a subscription of QoS 0 downgrades every message to QoS 0 -/
+theorem shapeQos_sub_zero (caps : Caps) (sub : Sub) (q : Nat) (h : sub.qos = 0) : shapeQos caps sub q = 0 := by
+  unfold shapeQos
+  rw [h]
+  cases q with
+  | zero => simp
+  | succ k => simp
+
+theorem shapeQos_zero_of (caps : Caps) (sub : Sub) (q : Nat) (h : q = 0 ∨ sub.qos = 0) : shapeQos caps sub q = 0 := by
+  rcases h with h | h
+  · rw [h]; exact shapeQos_zero _ _
+  · exact shapeQos_sub_zero _ _ _ h
+
+/-- `publishToClientCore` for a message that is QoS 0 after shaping (QoS 0 itself, or the subscription is): the object is rewritten (alias table only) and, if it is open, the
     shaped copy is written -/
-theorem publishToClientCore_q0 (s : Server) (i : Nat) (sub : Sub) (f : Bool) (pk : Msg) (hq : pk.qos = 0) :
+theorem publishToClientCore_q0 (s : Server) (i : Nat) (sub : Sub) (f : Bool) (pk : Msg)
+    (hq : pk.qos = 0 ∨ sub.qos = 0) :
     ∃ c1 m, SessEq (getObj s i) c1 ∧
       (m.type = pk.type ∧ m.payload = pk.payload ∧ m.qos = 0 ∧ m.origin = pk.origin ∧ m.dup = false ∧ m.id = 0) ∧
       publishToClientCore s i sub f pk =
@@ -47,7 +61,7 @@ theorem publishToClientCore_q0 (s : Server) (i : Nat) (sub : Sub) (f : Bool) (pk
   rename_i c1 out1 heq
   have hout : out.type = pk.type ∧ out.payload = pk.payload ∧ out.qos = 0 ∧ out.origin = pk.origin ∧
       out.dup = false ∧ out.id = 0 :=
-    ⟨rfl, rfl, by show shapeQos s.caps sub pk.qos = 0; rw [hq]; exact shapeQos_zero _ _, rfl, rfl, rfl⟩
+    ⟨rfl, rfl, shapeQos_zero_of s.caps sub pk.qos hq, rfl, rfl, rfl⟩
   have h1 : SessEq c c1 ∧ (out1.type = pk.type ∧ out1.payload = pk.payload ∧ out1.qos = 0 ∧ out1.origin = pk.origin ∧
       out1.dup = false ∧ out1.id = 0) := by
     split at heq
@@ -103,7 +117,7 @@ theorem writeMsg_pub (s : Server) (i : Nat) (m : Msg) (hm : m.type = 3) :
 
 /-- one entry of the subscriber map, QoS 0: who is written, and what happens to the state -/
 theorem publishToClient_q0 (t : Server) (i : Nat) (sub : Sub) (pk : Msg) (hi : i < t.objs.length)
-    (hq : pk.qos = 0) (ht : pk.type = 3) :
+    (hq : pk.qos = 0 ∨ sub.qos = 0) (ht : pk.type = 3) :
     Deliv t (publishToClient t i sub false pk).1 ∧ (publishToClient t i sub false pk).1.aclDeny = t.aclDeny ∧
     (publishToClient t i sub false pk).2.filterMap pubConn =
       (if gate t i sub pk = true then [(getObj t i).conn] else []) ∧
@@ -165,7 +179,7 @@ def recipient (s : Server) (pk : Msg) (cs : Str × Sub) : Option Nat :=
   | some i => if gate s i cs.2 pk = true then some (getObj s i).conn else none
 
 theorem fold_pubConns (s : Server) (pk : Msg) (hcv : ∀ id i, (id, i) ∈ s.clients → i < s.objs.length)
-    (hq : pk.qos = 0) (ht : pk.type = 3) (L : List (Str × Sub)) :
+    (ht : pk.type = 3) (L : List (Str × Sub)) (hq : pk.qos = 0 ∨ ∀ cs ∈ L, cs.2.qos = 0) :
     ∀ acc : Server × List Out, Deliv s acc.1 → acc.1.aclDeny = s.aclDeny →
       Deliv s (L.foldl (deliverStep pk) acc).1 ∧ (L.foldl (deliverStep pk) acc).1.aclDeny = s.aclDeny ∧
       (L.foldl (deliverStep pk) acc).2.filterMap pubConn = acc.2.filterMap pubConn ++ L.filterMap (recipient s pk) ∧
@@ -175,6 +189,8 @@ theorem fold_pubConns (s : Server) (pk : Msg) (hcv : ∀ id i, (id, i) ∈ s.cli
     intro acc d ha
     exact ⟨d, ha, by simp, fun x hx => Or.inl hx⟩
   | cons cs rest ih =>
+    have hq1 : pk.qos = 0 ∨ cs.2.qos = 0 := hq.imp id (fun h => h cs List.mem_cons_self)
+    replace ih := ih (hq.imp id (fun h c hc => h c (List.mem_cons_of_mem _ hc)))
     intro acc d ha
     rw [List.foldl_cons]
     cases hc : assocGet s.clients cs.1 with
@@ -187,7 +203,7 @@ theorem fold_pubConns (s : Server) (pk : Msg) (hcv : ∀ id i, (id, i) ∈ s.cli
       exact ih acc d ha
     | some i =>
       have hi : i < acc.1.objs.length := by rw [d.len]; exact hcv _ _ (assocGet_mem _ _ _ hc)
-      obtain ⟨p1, p2, p3, p4⟩ := publishToClient_q0 acc.1 i cs.2 pk hi hq ht
+      obtain ⟨p1, p2, p3, p4⟩ := publishToClient_q0 acc.1 i cs.2 pk hi hq1 ht
       have e : deliverStep pk acc cs =
           ((publishToClient acc.1 i cs.2 false pk).1, acc.2 ++ (publishToClient acc.1 i cs.2 false pk).2) := by
         unfold deliverStep
@@ -263,14 +279,16 @@ theorem IsCopy_stamped {s : Server} {pk : Msg} {x : Out} (h : IsCopy (stamped s 
     order**; every output is an inline delivery or a copy of the message -/
 theorem publishToSubscribers_pubConns (s : Server) (pk : Msg)
     (hcv : ∀ id i, (id, i) ∈ s.clients → i < s.objs.length)
-    (hig : pk.ignore = false) (ht : pk.type = 3) (hq : pk.qos = 0)
+    (hig : pk.ignore = false) (ht : pk.type = 3)
+    (hq : pk.qos = 0 ∨ ∀ cs ∈ (subscribers s.topics pk.topic).subs, cs.2.qos = 0)
     (hsh : (subscribers s.topics pk.topic).shared = []) :
     (publishToSubscribers s pk).2.filterMap pubConn =
       (subscribers s.topics pk.topic).subs.filterMap (recipient s pk) ∧
     ∀ x ∈ (publishToSubscribers s pk).2, (∃ id, x = Out.inline id pk.topic pk.payload) ∨ IsCopy pk x := by
   rw [publishToSubscribers_eq_fold s pk hig hsh]
-  obtain ⟨_, _, q3, q4⟩ := fold_pubConns s (stamped s pk) hcv ((stamped_fields s pk).2.2.1.trans hq)
+  obtain ⟨_, _, q3, q4⟩ := fold_pubConns s (stamped s pk) hcv
     ((stamped_fields s pk).2.2.2.1.trans ht) (subscribers s.topics pk.topic).subs
+    (hq.imp (fun h => (stamped_fields s pk).2.2.1.trans h) id)
     (s, (subscribers s.topics pk.topic).inline.map fun x => Out.inline x.1 pk.topic pk.payload) (Deliv.refl s) rfl
   refine ⟨?_, ?_⟩
   · rw [q3, recipient_stamped]
@@ -711,6 +729,25 @@ theorem idxOK_runOps (ops : List IOp) : IdxOK (runOps ops) := by
   induction ops with
   | nil => exact fun x h => h
   | cons op rest ih => exact fun x h => ih _ (idxOK_applyOp x h op)
+
+theorem mergeOr_qosPos : MergeOr (fun sub => sub.qos > 0) := by
+  intro a b
+  show (if b.qos > a.qos then b.qos else a.qos) > 0 ↔ _
+  split <;> omega
+
+/-- every matching plain subscription of the index has QoS 0: so has every merged entry of the subscriber map -/
+theorem merged_qos_zero (x : Index) (hx : IdxOK x) (topic : Str) (hne : topic ≠ [])
+    (hnh : ∀ t ∈ splitLevels topic, t ≠ [hash]) (hnd : ((subscribers x topic).subs.map Prod.fst).Nodup)
+    (h : ∀ c sub, MatchingSub x topic c sub → sub.qos = 0) :
+    ∀ cs ∈ (subscribers x topic).subs, cs.2.qos = 0 := by
+  intro cs hcs
+  by_cases hz : cs.2.qos = 0
+  · exact hz
+  · have hp : HasSub (fun sub => sub.qos > 0) (subscribers x topic).subs cs.1 :=
+      ⟨cs.2, assocGet_of_mem _ _ _ hnd hcs, Nat.pos_of_ne_zero hz⟩
+    obtain ⟨sub, hm, hq⟩ := (hasSub_subscribers_idx mergeOr_qosPos x hx topic hne hnh cs.1).mp hp
+    have := h _ _ hm
+    omega
 
 end Mochi.Topics
 
